@@ -444,7 +444,7 @@ def run(ctx, deep, model_ok):
             for e in errs:
                 ctx.broken.append(('correspondence-broken', name + ': ' + e))
             for k in failing[:2]:
-                ctx.violation('failing-input', 'Model/Convert.v (about which Props/C06.v is proved) and the implementation convert '
+                ctx.disagree('Model/Convert.v (about which Props/C06.v is proved) and the implementation convert '
                               'an edge of this document differently (%s)' % name, dict(metas[name][k], term=terms[k]),
                               python=py_of(metas[name][k]))
             ctx.notes['%s_compared_in_coq' % name] = len(terms)
